@@ -128,7 +128,7 @@ PROPS = {
     "C16": {
         "lean_modules": ["WP.Props.C16"],
         "lean_support": ["WP.Props.C03"],
-        "families": [("tfee", 60000, 3000000), ("hist", 12000, 300000)],
+        "families": [("tfee", 60000, 3000000), ("hist", 20000, 400000)],
         "history": True,
         "rule": "tfee: calculate_transfer_fee_included / excluded_amount of BOTH implementations (Anchor on an InterfaceAccount<Mint>, Pinocchio on a memory-mapped account through its own TLV parser and Clock) on a real "
                 "Token-2022 mint account with a TransferFeeConfig (rates 0..=10000 bp incl. 0 / 1 / 9999 / 10000, maximum fees 0 / 1 / around the cap / u64::MAX, the fee in force being the older or the newer one), "
